@@ -11,7 +11,7 @@ _lib = {}
 def plan(tier, seed):
     alt = spaces.label_choices(seed, 1)[0]
     if tier == 'quick':
-        blocks = [dict(n=3, m=2, labels='ints'), dict(n=2, m=3, labels='ints'), dict(n=4, m=1, labels='ints'),
+        blocks = [dict(n=3, m=2, labels='ints', histories=True), dict(n=2, m=3, labels='ints'), dict(n=4, m=1, labels='ints'),
                   dict(n=3, m=2, labels=alt), dict(n=4, m=2, labels='ints', schemes='core')]
     else:
         blocks = [dict(n=4, m=2, labels='ints'), dict(n=3, m=3, labels='ints'), dict(n=5, m=1, labels='ints'),
@@ -29,21 +29,24 @@ def init_worker(cfg):
 CORE = [spaces.UNIFYING, spaces.ZERO_HEAVY, spaces.B3LTB4, spaces.PSEUDO_05]
 
 
-def check_case(ctx, ds, lname, n, schemes):
+def check_case(ctx, ds, lname, n, schemes, dataset_obj=None, alg_obj=None, origin=None):
     from ..lib import mk_dataset, mk_scheme, labels_for, Back, wellformed
     labels = labels_for(lname, n)
     universe = spaces.universe_of(ds)
     k = len(universe)
-    dataset = mk_dataset(ds, labels)
+    dataset = dataset_obj if dataset_obj is not None else mk_dataset(ds, labels)
     back = Back(labels, universe)
     for s in schemes:
         table = refmodel.ref_table(universe, ds, s[0], s[1])
         ved, score, ranking = refmodel.ref_copeland(universe, table)
         scheme = mk_scheme(s)
         for one, reused in ((True, False), (False, False), (True, True)):
-            case = {'cfg': {}, 'dataset': ds, 'labels': lname, 'n': n, 'scheme': s, 'one': one, 'reused_object': reused}
+            case = {'cfg': {}, 'dataset': ds, 'labels': lname, 'n': n, 'scheme': s, 'one': one, 'reused_object': reused,
+                    'mutated_in_place_from': origin}
             ctx.evals += 1
-            if reused:
+            if alg_obj is not None:
+                alg = alg_obj
+            elif reused:
                 # a long-lived algorithm object that has already served every previous case of this shard
                 alg = _lib.setdefault('inst', _lib['A']())
                 ctx.count('executions_on_a_reused_algorithm_object')
@@ -98,19 +101,36 @@ def check_case(ctx, ds, lname, n, schemes):
     ctx.sample({'dataset': ds, 'labels': lname, 'reference_ranking': ranking})
 
 
+def histories(ctx, ds0, lname, n, schemes):
+    """run -> mutate in place -> run again on the SAME dataset object and the SAME algorithm object."""
+    from ..lib import labels_for, mutation_histories, prepare_mutated, mk_scheme
+    labels = labels_for(lname, n)
+    for what, after in mutation_histories(ds0):
+        for s in schemes:
+            alg = _lib['A']()
+            d = prepare_mutated(ds0, labels, what, warm=lambda dd: alg.compute_consensus_rankings(dd, mk_scheme(s), True))
+            check_case(ctx, after, lname, n, [s], dataset_obj=d, alg_obj=alg, origin=[ds0, what])
+            ctx.count('executions_after_run_mutate_on_the_same_objects')
+
+
 def run_shard(sh):
     ctx = Ctx(ID)
     schemes = CORE if sh.get('schemes') == 'core' else [s for _, s in spaces.SCHQ]
     for index, ds in spaces.ds_iter_strided(sh['n'], sh['m'], sh['shard'], sh['nshards']):
         before = ctx.cases
         check_case(ctx, ds, sh['labels'], sh['n'], schemes)
+        if sh.get('histories'):
+            histories(ctx, ds, sh['labels'], sh['n'], [spaces.UNIFYING, spaces.B3LTB4])
         ctx.count('dataset_scheme_cases', ctx.cases - before)
         ctx.cases = before + 1
     return ctx.result()
 
 
 def replay(ctx, c):
-    check_case(ctx, tt(c['dataset']), c['labels'], c['n'], [scheme_of(c['scheme'])])
+    if c.get('mutated_in_place_from'):
+        histories(ctx, tt(c['mutated_in_place_from'][0]), c['labels'], c['n'], [scheme_of(c['scheme'])])
+    else:
+        check_case(ctx, tt(c['dataset']), c['labels'], c['n'], [scheme_of(c['scheme'])])
 
 
 def summarize(tier, seed, merged, phases):
